@@ -286,7 +286,8 @@ void constructCommon(ModelSignature model,
         TSG_VERIF_HOOK("c18:m-begin", num_parallel_jobs, total_num_launched); // c18: main, before the initial launch loop
         #endif
         for(size_t id=0; id<num_parallel_jobs; id++){
-            x[id] = manager.next(max_num_points - total_num_launched);
+            if (total_num_launched < max_num_points) // never launch past the budget (also avoids the unsigned wrap-around of the difference)
+                x[id] = manager.next(max_num_points - total_num_launched);
             if (!x[id].empty()){
                 total_num_launched += x[id].size() / num_dimensions;
                 set_initial_guess(x[id], y[id]);
